@@ -148,6 +148,30 @@ func c16Bijection(rp *runner.Report) int {
 			}
 		}
 	}
+	// a registration rejected in a locked world leaves the registry unchanged (also when the rejected type is a relation)
+	{
+		w := ecs.NewWorld()
+		ecs.TypeID(&w, mkType(3))
+		q := w.Query(ecs.All())
+		pv := catchP(func() { ecs.TypeID(&w, reflect.TypeOf(relFirst{})) })
+		q.Close()
+		hist := []string{"register [4]uint8; open a query; register struct{ecs.Relation; V} (rejected); close the query; register [6]uint8"}
+		if pv == nil {
+			c16Violation(rp, "registry:locked-no-panic", "registering a new component type in a locked world did not panic", hist)
+			return evals
+		}
+		if n := len(ecs.ComponentIDs(&w)); n != 1 {
+			c16Violation(rp, "registry:locked-changed", fmt.Sprintf("a registration rejected in a locked world changed ComponentIDs to %d entries", n), hist)
+			return evals
+		}
+		id := ecs.TypeID(&w, mkType(5))
+		info, ok := ecs.ComponentInfo(&w, id)
+		if sim.IDNum(id) != 1 || !ok || info.IsRelation || info.Type != mkType(5) {
+			c16Violation(rp, "registry:locked-leftover", fmt.Sprintf("after a rejected registration of a relation type the next type is reported as ID %d %+v", sim.IDNum(id), info), hist)
+			return evals
+		}
+		evals += 3
+	}
 	return evals
 }
 
@@ -178,7 +202,7 @@ func c16Run(limit int, devs []c16dev, probe []int) (fail string, sig string) {
 		if p == nil {
 			panic(fmt.Sprintf("Get(%v, id %d) is nil right after creation/addition", e, k))
 		}
-		b := unsafe.Slice((*byte)(p), k+1)
+		b := unsafe.Slice((*byte)(p), compSize(k))
 		for i := range b {
 			if b[i] != 0 {
 				panic(fmt.Sprintf("component id %d of %v is not zero-initialised", k, e))
@@ -187,6 +211,9 @@ func c16Run(limit int, devs []c16dev, probe []int) (fail string, sig string) {
 		}
 	}
 	verify := func(where string) (string, string) {
+		if err := w.VerifCheckInvariants(); err != nil {
+			return fmt.Sprintf("%s: internal structure corrupted: %v", where, err), "usable:invariant"
+		}
 		for _, en := range ents {
 			if !w.Alive(en.e) {
 				return fmt.Sprintf("%s: entity %v not alive", where, en.e), "usable:alive"
@@ -203,7 +230,7 @@ func c16Run(limit int, devs []c16dev, probe []int) (fail string, sig string) {
 				if p == nil {
 					return fmt.Sprintf("%s: Get(%v, id %d) = nil", where, en.e, k), "usable:get"
 				}
-				b := unsafe.Slice((*byte)(p), k+1)
+				b := unsafe.Slice((*byte)(p), compSize(k))
 				for i := range b {
 					if b[i] != byte(k+i+int(en.e.ID())) {
 						return fmt.Sprintf("%s: component id %d of %v changed", where, k, en.e), "usable:value"
@@ -214,10 +241,41 @@ func c16Run(limit int, devs []c16dev, probe []int) (fail string, sig string) {
 		return "", ""
 	}
 	di := 0
+	var lastChild, lastTarget ecs.Entity
 	for n := 1; n <= limit; n++ {
-		ids = append(ids, ecs.TypeID(&w, mkType(n-1)))
+		if n == 1 {
+			ids = append(ids, ecs.TypeID(&w, reflect.TypeOf(relFirst{}))) // ID 0 is a relation component (4 bytes)
+		} else {
+			ids = append(ids, ecs.TypeID(&w, mkType(n-1)))
+		}
 		for di < len(devs) && devs[di].at == n {
 			k := n - 1
+			switch devs[di].kind {
+			case 2: // a relation table for a fresh target
+				lastTarget = w.NewEntity()
+				lastChild = ecs.NewBuilder(&w, ids[0]).WithRelation(ids[0]).New(lastTarget)
+				ents = append(ents, ent{lastTarget, nil}, ent{lastChild, []int{0}})
+				write(lastChild, 0)
+				di++
+				continue
+			case 3: // retire the table: remove the child, then its target
+				if !lastChild.IsZero() {
+					w.RemoveEntity(lastChild)
+					w.RemoveEntity(lastTarget)
+					ents = ents[:len(ents)-2]
+					lastChild, lastTarget = ecs.Entity{}, ecs.Entity{}
+				}
+				di++
+				continue
+			case 4: // a new target: re-uses a retired table if there is one
+				t := w.NewEntity()
+				c := ecs.NewBuilder(&w, ids[0]).WithRelation(ids[0]).New(t)
+				ents = append(ents, ent{t, nil}, ent{c, []int{0}})
+				write(c, 0)
+				lastChild, lastTarget = c, t
+				di++
+				continue
+			}
 			if devs[di].kind == 0 || len(ents) == 0 {
 				e := w.NewEntity(ids[k])
 				ents = append(ents, ent{e, []int{k}})
@@ -284,6 +342,14 @@ func c16Run(limit int, devs []c16dev, probe []int) (fail string, sig string) {
 	return "", ""
 }
 
+// compSize: component 0 is relFirst (4 bytes), component k > 0 is [k+1]uint8
+func compSize(k int) int {
+	if k == 0 {
+		return 4
+	}
+	return k + 1
+}
+
 func c16Usability(rp *runner.Report) (runs int64) {
 	limit := ecs.MaskTotalBits
 	probe := []int{0, 1, 15, 16, 17, 31, 32, 63, 64, 65, 127, 128, 129, 191, 192, 193, 239, 240, 241, 254, 255}
@@ -313,6 +379,22 @@ func c16Usability(rp *runner.Report) (runs int64) {
 				}
 				scheds = append(scheds, []c16dev{{c1, 0}, {c2, k2}})
 			}
+		}
+	}
+	// relation-table lifecycle: create a relation table, retire it (target dies), re-use it for a new target, at all
+	// boundary placements relative to the registration count
+	bcounts := []int{}
+	for c := 1; c <= limit; c++ {
+		if boundary[c] || (rp.Tier == "thorough" && c%4 == 0) {
+			bcounts = append(bcounts, c)
+		}
+	}
+	for i := 0; i < len(bcounts); i++ {
+		for j := i; j < len(bcounts); j++ {
+			for k := j; k < len(bcounts); k++ {
+				scheds = append(scheds, []c16dev{{bcounts[i], 2}, {bcounts[j], 3}, {bcounts[k], 4}})
+			}
+			scheds = append(scheds, []c16dev{{bcounts[i], 2}, {bcounts[j], 0}})
 		}
 	}
 	// three deviations at chunk boundaries (thorough)
@@ -350,9 +432,9 @@ func c16Usability(rp *runner.Report) (runs int64) {
 					mu.Lock()
 					if !reported[sig] && len(reported) < 3 {
 						reported[sig] = true
-						hist := []string{fmt.Sprintf("%s build: register %d component types ([k+1]uint8 for k = 0..%d)", buildName(), limit, limit-1)}
+						hist := []string{fmt.Sprintf("%s build: register %d component types (ID 0: a relation component; ID k: [k+1]uint8)", buildName(), limit)}
 						for _, d := range scheds[i] {
-							hist = append(hist, fmt.Sprintf("deviation: when %d types are registered, %s", d.at, [...]string{"NewEntity(newest ID)", "Add(newest ID) to the first entity"}[d.kind]))
+							hist = append(hist, fmt.Sprintf("deviation: when %d types are registered, %s", d.at, [...]string{"NewEntity(newest ID)", "Add(newest ID) to the first entity", "t := NewEntity(); child := Builder(relation ID 0).New(t)", "RemoveEntity(child); RemoveEntity(t)", "t2 := NewEntity(); Builder(relation ID 0).New(t2)"}[d.kind]))
 						}
 						hist = append(hist, "then for every probe ID: NewEntity(id), write/read values, Query(All(id)).Count(), Add/Remove on the oldest entity")
 						c16Violation(rp, sig, f, hist)
